@@ -1029,3 +1029,195 @@ func seekGapGroup(c *Ctx, rule string) {
 		need(c, rule, bs, false, "setIdx", Named("lsm.(*blockIterator).setIdx"), 1)
 	}
 }
+
+// versionAccumulatorGroup: point lookups fold the newest version <= read timestamp over several
+// tables into a uint64 accumulator that starts at 0, and 0 is also a storable version.  The
+// acceptance test and the "this table cannot improve on what we have" pre-filters are decided
+// by order-sign evaluation over the three quantities candidate, best and the constant 0.
+func versionAccumulatorGroup(c *Ctx, rule string) {
+	c.Rule(rule, "table.Search accepts a found entry iff its version supersedes the accumulator: for every ordering of (candidate, best, 0) — candidate > best ⇒ accepted, candidate < best ⇒ rejected, candidate == best == 0 (nothing found yet, entry stored at version 0) ⇒ accepted; the pre-filters in searchL0SST, searchLNSST and the ingest-shard search reach table.Search under the same orderings with candidate = the table's max version")
+	type site struct {
+		fn     *ssa.Function
+		target ssa.Instruction
+		cand   func(v ssa.Value) bool
+		best   func(v ssa.Value) bool
+		name   string
+	}
+	var sites []site
+	if fn := c.Fn("lsm", "table.Search"); fn != nil {
+		var mv ssa.Value
+		if len(fn.Params) >= 3 {
+			mv = fn.Params[2]
+		}
+		for _, ne := range Calls(fn, false, Named("kv.NewEntryWithCF")) {
+			sites = append(sites, site{fn, ne.(ssa.Instruction),
+				func(v ssa.Value) bool {
+					call, ok := v.(*ssa.Call)
+					return ok && Named("kv.ParseTs")(call.Common())
+				},
+				func(v ssa.Value) bool { u, ok := v.(*ssa.UnOp); return ok && u.Op == token.MUL && u.X == mv },
+				"accept"})
+		}
+	}
+	for _, f := range c.P.ModFuncs {
+		if FuncPkgPath(f) != Module+"/lsm" || FuncName(f) == "(*lsm.table).Search" {
+			continue
+		}
+		for _, sc := range Calls(f, false, Named("lsm.(*table).Search")) {
+			acc := sc.Common().Args[2] // pointer to the accumulator
+			if len(Calls(f, false, Named("lsm.(*table).MaxVersionVal"))) == 0 {
+				continue
+			}
+			c.Touch(f)
+			sites = append(sites, site{f, sc.(ssa.Instruction),
+				func(v ssa.Value) bool {
+					call, ok := v.(*ssa.Call)
+					return ok && Named("lsm.(*table).MaxVersionVal")(call.Common())
+				},
+				func(v ssa.Value) bool {
+					u, ok := v.(*ssa.UnOp)
+					if !ok || u.Op != token.MUL {
+						return false
+					}
+					return u.X == acc || sameSlot(u.X, acc)
+				},
+				"prefilter"})
+		}
+	}
+	c.Floor(rule, len(sites), 3, "version-accumulator sites")
+	sgn := func(a, b int) int {
+		switch {
+		case a < b:
+			return -1
+		case a > b:
+			return 1
+		}
+		return 0
+	}
+	for i, s := range sites {
+		bad := ""
+		explored := 0
+		for cand := 0; cand <= 2; cand++ {
+			for best := 0; best <= 2; best++ {
+				env := &SignEnv{Depth: 2, Signs: map[string]int{"0:best": sgn(0, best), "0:cand": sgn(0, cand), "best:cand": sgn(best, cand)},
+					Role: func(v ssa.Value) string {
+						switch {
+						case s.cand(v):
+							return "cand"
+						case s.best(v):
+							return "best"
+						}
+						return ""
+					}}
+				reach := env.Reaches(s.fn, s.target)
+				explored += env.Visited
+				want := cand > best || (cand == 0 && best == 0)
+				mustNot := cand < best
+				if want && !reach && bad == "" {
+					bad = fmt.Sprintf("candidate version %s, best so far %s: not accepted", absVal(cand), absVal(best))
+				}
+				if s.name == "accept" && mustNot && reach && bad == "" {
+					bad = fmt.Sprintf("candidate version %s below best so far %s: accepted", absVal(cand), absVal(best))
+				}
+			}
+		}
+		c.Decide(bad == "", rule, key(s.fn, fmt.Sprintf("%s[%d]#orderings(candidate,best,0)", s.name, i+1)), s.target.Pos(), explored,
+			"all 9 orderings of (candidate, best, 0) behave as `candidate supersedes best`", "version accumulator mis-handles an ordering ("+bad+"): 0 is both the initial value and a storable version, so an entry stored at version 0 (or a table whose entries are all at version 0) can never be returned by a point lookup once it is in an SST")
+	}
+}
+
+func absVal(v int) string {
+	switch v {
+	case 0:
+		return "0"
+	case 1:
+		return "small>0"
+	}
+	return "large"
+}
+
+// sameSlot: two pointer values denote the same accumulator (same alloc/parameter, also through phi).
+func sameSlot(a, b ssa.Value) bool {
+	if a == b {
+		return true
+	}
+	if p, ok := b.(*ssa.Phi); ok {
+		for _, e := range p.Edges {
+			if e == a {
+				return true
+			}
+		}
+	}
+	if p, ok := a.(*ssa.Phi); ok {
+		for _, e := range p.Edges {
+			if e == b {
+				return true
+			}
+		}
+	}
+	return false
+}
+
+// segmentNamesGroup: WAL segment files are created as Sprintf("%05d.wal", id) — five is a
+// MINIMUM width — and must be found again for every id.  The discovery side therefore has to
+// (a) match names literally (no glob pattern built from the directory path), (b) parse ids
+// of any width (a scan verb's width is a maximum), and (c) order segments by id, not by name.
+func segmentNamesGroup(c *Ctx, rule string) {
+	c.Rule(rule, "package wal: segment names are produced by one Sprintf(\"%05d.wal\") (segmentPath); every function that enumerates segments does so through the package's lister, which lists with FS.ReadDir (not FS.Glob on Dir+pattern), parses ids with strconv.ParseUint (no fmt.Sscan* with a width) and sorts by id (sort.Slice/sort.Ints, not sort.Strings); openLatestSegment, ListSegments, Replay and VerifyDir all reach it (directly or through helpers)")
+	pkg := Module + "/wal"
+	var globs, scans, strSorts []string
+	var globPos, scanPos, sortPos token.Pos
+	for _, f := range c.P.ModFuncs {
+		if FuncPkgPath(f) != pkg {
+			continue
+		}
+		for _, ci := range Calls(f, false, func(cc *ssa.CallCommon) bool { return cc.IsInvoke() && cc.Method.Name() == "Glob" }) {
+			globs = append(globs, FuncName(f))
+			globPos = ci.Pos()
+		}
+		for _, ci := range Calls(f, false, Named("fmt.Sscanf", "fmt.Sscan", "fmt.Fscanf", "fmt.Sscanln")) {
+			scans = append(scans, FuncName(f))
+			scanPos = ci.Pos()
+		}
+		for _, ci := range Calls(f, false, Named("sort.Strings", "slices.Sort")) {
+			if strings.Contains(ci.Common().Args[0].Type().String(), "string") {
+				strSorts = append(strSorts, FuncName(f))
+				sortPos = ci.Pos()
+			}
+		}
+	}
+	c.Decide(len(globs) == 0, rule, "wal#no-glob-on-directory", globPos, 1, "segments are not discovered through a glob pattern built from the directory path", "package wal lists files with FS.Glob (in "+strings.Join(globs, ", ")+"): a directory path containing [, *, ? or \\ is interpreted as a pattern, no segment is found, replay is empty and the reopened log truncates its first segment")
+	c.Decide(len(scans) == 0, rule, "wal#no-width-limited-scan", scanPos, 1, "segment ids are not parsed with a width-limited scan verb", "package wal parses names with fmt.Sscan* (in "+strings.Join(scans, ", ")+"): `%05d` reads at most five digits, so segments with id >= 100000 are invisible to replay and resume")
+	c.Decide(len(strSorts) == 0, rule, "wal#no-name-order", sortPos, 1, "segments are not ordered by name", "package wal orders segment paths as strings (in "+strings.Join(strSorts, ", ")+"): 100000.wal sorts before 99999.wal, so records would be replayed out of order")
+	// the lister: whichever function of package wal reads the directory
+	isReadDir := func(cc *ssa.CallCommon) bool { return cc.IsInvoke() && cc.Method.Name() == "ReadDir" }
+	var listers []*ssa.Function
+	for _, f := range c.P.ModFuncs {
+		if FuncPkgPath(f) == pkg && len(Calls(f, false, isReadDir)) > 0 {
+			listers = append(listers, Root(f))
+		}
+	}
+	c.Decide(len(listers) >= 1, rule, "wal#lists-with-ReadDir", 0, len(listers)+1, "segments are listed with FS.ReadDir", "no function of package wal lists the directory with FS.ReadDir")
+	for _, lf := range listers {
+		c.Touch(lf)
+		pu := Calls(lf, true, Named("strconv.ParseUint", "strconv.Atoi", "strconv.ParseInt"))
+		so := Calls(lf, true, Named("sort.Slice", "sort.Ints", "slices.SortFunc", "sort.SliceStable"))
+		c.Decide(len(pu) >= 1 && len(so) >= 1, rule, key(lf, "ParseUint+sort-by-id"), lf.Pos(), 3, "full-width parse, numeric order", fmt.Sprintf("%s no longer parses ids with strconv (%d site(s)) and sorts numerically (%d site(s))", FuncName(lf), len(pu), len(so)))
+	}
+	viaLister := deepMatcher(isReadDir, pkg, 3)
+	for _, n := range []string{"Manager.openLatestSegment", "Manager.ListSegments", "Manager.Replay", "VerifyDir"} {
+		if f := c.Fn("wal", n); f != nil {
+			c.Decide(len(Calls(f, false, viaLister)) >= 1, rule, key(f, "enumerates-through-lister"), f.Pos(), 2, "segments come from the ReadDir-based lister", n+" does not obtain the segment list from the ReadDir-based lister")
+		}
+	}
+	// the writer side: exactly one format
+	if sp := c.Fn("wal", "Manager.segmentPath"); sp != nil {
+		okFmt := false
+		for _, s := range Calls(sp, false, Named("fmt.Sprintf")) {
+			if k, ok := s.Common().Args[0].(*ssa.Const); ok && k.Value != nil && strings.Contains(k.Value.ExactString(), "%05d.wal") {
+				okFmt = true
+			}
+		}
+		c.Decide(okFmt, rule, key(sp, "format:%05d.wal"), sp.Pos(), 1, "names are <id padded to at least 5 digits>.wal", "segmentPath no longer formats names as %05d.wal (the reader strips `.wal` and parses a decimal id)")
+	}
+}
